@@ -742,7 +742,7 @@ class Body:
         # look through Try::branch: o is 'ref' via Try::branch with base = arg
         via_try = False
         oo = o
-        if oo.kind == 'ref' and getattr(oo, 'via', '') and oo.via.endswith('Try::branch'):
+        if oo.kind == 'ref' and getattr(oo, 'via', '') and (oo.via.endswith('Try::branch') or oo.via.endswith('Try>::branch')):
             via_try = True
             oo = oo.base
         # label mapping
